@@ -1,7 +1,7 @@
 """C04 - a vapour-liquid flash honours its specifications and the equilibrium conditions."""
 import random
 
-from harness import tlc
+from harness import core, tlc
 from harness.drivers import flash as df
 
 ASSUME = [
@@ -13,6 +13,8 @@ ASSUME = [
     'phase boundaries from the library\'s own bubble / dew pressures (C08), fugacities from LiquidFugacities / GasFugacities (1e-4), scaling (1e-6); measured in '
     'floating point by the driver and judged from the logged integers',
 ]
+
+RULE = ' Counting: evaluations = every executed call; distinct_nontrivial = distinct (operation, arguments, state before the call) among the calls that were judged, i.e. in contract, not state shaping and (where the property says so) returned normally.'
 
 
 def key_of(step, clause):
@@ -61,6 +63,7 @@ def run(ctx):
     per = 40
     traces = [dict(id='F%d' % i, mode='fan', init=zero, steps=steps[i * per:(i + 1) * per]) for i in range((len(steps) + per - 1) // per)]
     defs, cfgc = df.tla_constants()
+    cases = []
     v = tlc.validate_traces('Flash', defs, cfgc, traces, procs=16)
     n_ok, per_op, n_ooc = 0, {}, 0
     for t in traces:
@@ -68,6 +71,7 @@ def run(ctx):
         bad = dict(x['stepfail'])
         ooc = set(x['stepooc'])
         for l, s in enumerate(t['steps'], 1):
+            cases.append((l not in ooc, [s['op'], s['a'], s['obs'] if s['op'] == 'measured' else None]))
             if l in bad:
                 ctx.violation(key_of(s, bad[l]), '%s %r: %s obs=%r' % (s['op'], s['a'], bad[l], s['obs']),
                               dict(kind='note', detail='re-run the check with the same seed', op=s['op'], a=s['a'], clause=bad[l]))
@@ -84,6 +88,8 @@ def run(ctx):
                rule='MC: for every feed of the grid and T / P ratio exactly one of all-liquid / all-vapour / two-phase holds, Rachford-Rice roots are solutions, '
                     'scale independence. Exact binding: TP flashes in all three regions and TV / PV flashes of synthetic ideal mixtures (1-5 chemicals, any '
                     'scale, material initially in either phase) against solutions TLC verifies in rationals. Real packages: every clause of C04 measured per flash')
+    cov.update(core.case_stats(cases))
+    cov['rule'] += RULE
     return 'exploration', cov, ASSUME
 
 
